@@ -146,9 +146,17 @@ class Check:
 
     def _copy_driver(self):
         exe = os.path.join(LEAN_DIR, ".lake", "build", "bin", "driver")
+        for f in os.listdir(os.path.dirname(exe)) if os.path.isdir(os.path.dirname(exe)) else []:
+            # copies left by runs that were killed
+            fp = os.path.join(os.path.dirname(exe), f)
+            try:
+                if f.startswith("driver.run") and time.time() - os.path.getmtime(fp) > 3600:
+                    os.remove(fp)
+            except OSError:
+                pass
         if os.path.exists(exe):
             dst = exe + f".run{os.getpid()}"
-            shutil.copy2(exe, dst)
+            shutil.copy(exe, dst)
             self._driver_copy = dst
             atexit.register(lambda d=dst: os.path.exists(d) and os.remove(d))
 
@@ -258,7 +266,12 @@ class Check:
                 self.assumptions.append(f"unit {u} of Gen/Funs.lean was not tied to the source by translation on this run; "
                                         "the theorems stand for its pinned text, validated against the live code by the correspondence run")
                 continue
-            okv, n, why = fn(self)
+            try:
+                okv, n, why = fn(self)
+            except Exception as e:        # the live code raised where the pinned model has a value: that is a disagreement, with its input
+                import traceback
+                fr = traceback.extract_tb(e.__traceback__)[-1]
+                okv, n, why = False, 0, f"the live code raised {type(e).__name__}: {str(e)[:200]} (at {os.path.basename(fr.filename)}:{fr.lineno}) while being compared with the pinned unit {u}"
             self.oblige(f"pinned unit {u} == live code on a dense grid ({n} inputs)", "correspondence", okv, why)
             self.assumptions.append(f"unit {u} of Gen/Funs.lean was not tied to the source by translation on this run; "
                                     f"the theorems stand for its pinned text, validated against the live code on {n} inputs")
